@@ -133,6 +133,26 @@ func queryList(env *core.Env, st State, rnd *rand.Rand, nCursors int, editAt int
 			}
 		}
 	}
+	// stratified: a few cursors inside each kind of written element (uniform
+	// offsets alone rarely land on the short ones, e.g. top-level labels)
+	if pc := env.PathCtx[st.Path]; pc != nil && pc.Files[st.File] != nil {
+		so := structuralOffsets(pc.Files[st.File])
+		cats := make([]string, 0, len(so))
+		for c := range so {
+			cats = append(cats, c)
+		}
+		sort.Strings(cats)
+		per := 1 + nCursors/10
+		for _, c := range cats {
+			l := so[c]
+			for i := 0; i < per && i < len(l); i++ {
+				o := l[rnd.Intn(len(l))]
+				if _, ok := tab.At(o); ok {
+					add(o)
+				}
+			}
+		}
+	}
 	sort.Ints(offs)
 	for _, o := range offs {
 		pos, _ := tab.At(o)
@@ -789,11 +809,18 @@ func topLevelInsertPoints(env *core.Env, path, file string, src string) []int {
 
 func (p c18) RunUnit(idx int, tier string, seed int64, focus map[string]string, rep *runner.Reporter) {
 	q, t, cursors, inserts := c18Params(tier)
+	typed := 2
+	if tier == "thorough" {
+		typed = 6
+	}
 	srcs := diffSources(tier, seed, q, t)
 	if idx >= len(srcs) {
 		return
 	}
 	rc := srcs[idx].Recipe
+	if rc.Kind == "fixture" && rc.Name == "tf-twins" {
+		return // positions are mapped by file name, which is not unique there
+	}
 	rnd := unitRand(seed, "C18", idx)
 	base, err := rc.Make()
 	if err != nil {
@@ -831,6 +858,55 @@ func (p c18) RunUnit(idx int, tier string, seed int64, focus map[string]string, 
 			rep.Mark(idx, sti, at, i)
 			p.compare(rc, st, at, sb.String(), cursors, rnd, rep, nil)
 		}
+		// editing states: a partially typed name on a line of its own in front of a
+		// top-level item (the first one included), then lines inserted above it /
+		// elsewhere; the cursors include the bytes of the typed name
+		var names []string
+		if pc := env0.PathCtx[st.Path]; pc != nil && pc.Schema != nil {
+			for n := range pc.Schema.Blocks {
+				names = append(names, n)
+			}
+			for n := range pc.Schema.Attributes {
+				names = append(names, n)
+			}
+			sort.Strings(names)
+		}
+		if len(names) == 0 {
+			names = []string{"x"}
+		}
+		sort.Ints(pts)
+		nl := "\n"
+		if strings.Contains(src, "\r\n") {
+			nl = "\r\n"
+		}
+		for ti := 0; ti < typed; ti++ {
+			a := pts[0]
+			if ti > 0 {
+				a = pts[rnd.Intn(len(pts))]
+			}
+			name := names[rnd.Intn(len(names))]
+			part := name[:1+rnd.Intn(len(name))]
+			tst := State{st.Path, st.File, Mutation{Kind: "insert", A: a, Text: part + nl}}
+			_, envT, _ := buildState(rc, tst)
+			if envT == nil {
+				continue
+			}
+			srcT := envT.WS.Paths[st.Path].Files[st.File]
+			ptsT := append([]int{a}, topLevelInsertPoints(envT, st.Path, st.File, srcT)...)
+			for i := 0; i < 3; i++ {
+				at := a // directly above the typed line
+				if i == 2 {
+					at = ptsT[rnd.Intn(len(ptsT))]
+				}
+				var sb strings.Builder
+				for j, k := 0, []int{1, 3, 12}[i]; j < k; j++ {
+					sb.WriteString(insertLines[rnd.Intn(len(insertLines))] + nl)
+				}
+				rep.Mark(idx, sti, at, 1000+ti*10+i)
+				rep.Count("typed_name_states", 1)
+				p.compare(rc, tst, at, sb.String(), cursors/2, rnd, rep, nil)
+			}
+		}
 	}
 }
 
@@ -840,8 +916,17 @@ func (p c18) compare(rc Recipe, st State, at int, ins string, cursors int, rnd *
 		return
 	}
 	st1 := st
-	st1.Mut = Mutation{Kind: "insert", A: at, Text: ins}
-	if st.Mut.Kind != "none" && st.Mut.Kind != "" {
+	editAt := -1
+	switch st.Mut.Kind {
+	case "none", "":
+		st1.Mut = Mutation{Kind: "insert", A: at, Text: ins}
+	case "insert":
+		if st.Mut.Text2 != "" {
+			return
+		}
+		st1.Mut = Mutation{Kind: "insert", A: st.Mut.A, Text: st.Mut.Text, B: at, Text2: ins}
+		editAt = st.Mut.A + len(strings.TrimRight(st.Mut.Text, "\r\n"))
+	default:
 		return
 	}
 	ws1, env1, _ := buildState(rc, st1)
@@ -892,7 +977,7 @@ func (p c18) compare(rc Recipe, st State, at int, ins string, cursors int, rnd *
 	}, PosMap: mapPos}
 	// identity map on the original so that both sides use the same rendering path
 	o0 := dump.Options{RangeMap: func(r hcl.Range) hcl.Range { return r }, PosMap: func(p hcl.Pos) hcl.Pos { return p }}
-	qs := queryList(env0, st, rnd, cursors, -1)
+	qs := queryList(env0, st, rnd, cursors, editAt)
 	if only != nil && only.Kind != "" {
 		k, ok := core.QKindByName(only.Kind)
 		if !ok {
